@@ -365,6 +365,32 @@ pub fn run(cx: &mut Cx) {
                 }
             }
         }
+        // ---- (2b) a registered template included from a one-off string renders what rendering it directly gives
+        // (what `__tera_context` lists inside an included template is not specified — it leaves out the global context
+        // today — so programs that use the dump are left out of this comparison)
+        let uses_dump = program.templates.iter().any(|(_, s)| s.contains("__tera_context"));
+        for e in program.entries.iter().take(if uses_dump { 0 } else { 2 }) {
+            let r = guard(|| (tera.render(e, &ctx).map_err(|x| x.to_string()), tera.render_str(&format!("{{% include \"{e}\" %}}"), &ctx, true).map_err(|x| x.to_string())));
+            cx.evals(2);
+            match r {
+                Ok((a, b)) => {
+                    cx.count("includes_from_one_off_strings_compared", 1);
+                    let same = match (&a, &b) {
+                        (Ok(x), Ok(y)) => x == y,
+                        (Err(_), Err(_)) => true,
+                        _ => false,
+                    };
+                    if !same && std::env::var("TVH_TRACE").is_ok() && !std::path::Path::new("/tmp/c18_a.txt").exists() {
+                        let _ = std::fs::write("/tmp/c18_a.txt", format!("{a:?}"));
+                        let _ = std::fs::write("/tmp/c18_b.txt", format!("{b:?}"));
+                    }
+                    if !same {
+                        cx.violation("C18/include-from-render_str-differs-from-render", format!("render({e}) gave {:?}, render_str with an include of it {:?}", a.as_ref().map(|s| clip(s, 200)), b.as_ref().map(|s| clip(s, 200))), json!({"templates": program.templates, "entry": e}));
+                    }
+                }
+                Err(p) => cx.violation(&format!("C18/panic/{}", panic_site(&p)), format!("include of {e} from a one-off string panicked: {p}"), json!({"templates": program.templates})),
+            }
+        }
         // ---- (3) purity
         if tera.verif_digest() != digest_before {
             cx.violation("C18/engine-modified-by-render", "the derived-state digest of the engine changed while rendering".into(), json!({"templates": program.templates}));
